@@ -1,4 +1,4 @@
-import Lemmas.FixedTextLiteral
+import Lemmas.FixedTextFloat
 import Generated.Facts
 /-! # C04 — fixed-point values print canonically and parse back to the identical value
 
@@ -202,9 +202,44 @@ theorem fromString_total128 (p : Nat) (m : Int) (s : Str) :
     fromStr128 p m s = .err ∨ fromStr128 p m s = .exp ∨ ∃ v, fromStr128 p m s = .ok v ∧ fits128 v = true :=
   fromStr128_total p m s
 
-/-- the part outside the model (strconv.ParseFloat) is entered exactly by non-empty inputs containing 'e' or 'E' -/
+/-- **dispatch**: the part outside the model (the lossy `strconv.ParseFloat` detour) is entered exactly by non-empty
+    inputs that contain 'e' or 'E' once the commas are removed — in both types, whatever the configuration -/
 theorem fromString_exp_iff (p : Nat) (m : Int) (s : Str) :
     fromStr64 p m s = .exp ↔ s ≠ [] ∧ hasExp (stripCommas s) = true := fromStr64_exp_iff p m s
+
+theorem fromString_exp_iff128 (p : Nat) (m : Int) (s : Str) :
+    fromStr128 p m s = .exp ↔ s ≠ [] ∧ hasExp (stripCommas s) = true := fromStr128_exp_iff p m s
+
+/-- **dispatch, the other half**: the grammar of the plain-literal theorems and the float detour are disjoint — no plain
+    literal `[+-]? digit* ('.' digit*)?` (with or without separators, of any length, in any configuration) is ever
+    sent through `ParseFloat`; together with `fromString_exp_iff` the dispatch is exhaustive: a text takes the detour
+    iff it contains e/E, and every other text is decided by the exact integer path of the model.  (A change that
+    routes plain literals through floats, e.g. long ones "for speed", contradicts `fromString_literal64/128`.) -/
+theorem literal_never_float_path (p : Nat) (m : Int) (sg : Sign) (ip : Str) (fo : Option Str)
+    (hl : IsLiteral sg ip fo) (t : Str) (ht : stripCommas t = litText sg ip fo) :
+    fromStr64 p m t ≠ .exp ∧ fromStr128 p m t ≠ .exp :=
+  literal_not_exp p m sg ip fo hl t ht
+
+/-- the renderings of a value never take the detour either (they parse exactly, see the round-trip theorems) -/
+theorem renderings_never_float_path (p : Nat) (raw : Int) :
+    hasExp (stripCommas (toStr (10^p) raw)) = false ∧ hasExp (stripCommas (comma (10^p) raw)) = false := by
+  rw [comma_strip, toStr_noComma]
+  have : hasExp (toStr (10^p) raw) = false := by
+    obtain ⟨_, hip, _, hfpd, _, _, _⟩ := toStr_canonical p raw
+    apply hasExp_false
+    intro c hc
+    rw [toStr_decomp] at hc
+    rcases List.mem_append.mp hc with h | h
+    · rcases List.mem_append.mp h with h | h
+      · split at h <;> simp at h; omega
+      · have := isDigit_bounds c (hip c h); omega
+    · by_cases h0 : raw.tmod (10^p) = 0
+      · rw [if_pos h0] at h; simp at h
+      · rw [if_neg h0] at h hfpd
+        rcases List.mem_cons.mp h with h' | h'
+        · omega
+        · have := isDigit_bounds c (hfpd c h'); omega
+  exact ⟨this, this⟩
 
 /-! ## FromString of a plain decimal literal
 
@@ -304,6 +339,93 @@ theorem as_eq_checkedAs64 (mult : Int) (t : Target) (raw n : Int) (h : checkedAs
 
 theorem as_eq_checkedAs128 (mult : Int) (t : Target) (raw n : Int) (h : checkedAs128 mult t raw = some n) :
     as128 mult t raw = n := ((checkedAs_int_iff128 mult t raw n).mp h).1.symm
+
+/-! ## As / CheckedAs, float targets — reduced to the contract of strconv
+
+`checkedAsFloat64` / `checkedAsFloat128` transcribe the float branch of `CheckedAs` with the stdlib functions as
+parameters.  `StrconvContract` names what is assumed of them: `ParseFloat` is correctly rounded (`parse_nearest`, over
+texts that `Denotes` a decimal number), `FormatFloat(x,'f',-1,bits)` is the shortest round-trip text (`format_shortest`),
+and "nearest float to ±N/10^k" depends on the value only (`nearest_scale`).  What is PROVED is the step in between: the
+criterion of the code is the wording of the property, because `String()` denotes exactly raw/10^p (`toStr_denotes`,
+from `toString_exact`).  The harness checks the same clause against big.Rat + strconv on every run (area `float`). -/
+
+/-- `String()` is a decimal text denoting exactly raw/10^p -/
+theorem toString_denotes (p : Nat) (raw : Int) :
+    ∃ N k, Denotes (toStr (10^p) raw) (decide (raw < 0)) N k ∧ k ≤ p ∧ N * 10^(p - k) = raw.natAbs :=
+  toStr_denotes p raw
+
+/-- **f64, float target**: CheckedAs succeeds exactly when the shortest round-trip text of the float nearest to
+    raw/10^p is the number's own text, and then returns that float -/
+theorem checkedAs_float_iff64 {F : Type} {parseFloat : Str → F} {formatFloat : F → Str}
+    {nearest : Bool → Nat → Nat → F} {shortest : F → Str}
+    (h : StrconvContract parseFloat formatFloat nearest shortest) (p : Nat) (raw : Int) (x : F) :
+    checkedAsFloat64 parseFloat formatFloat (10^p) raw = some x ↔
+      (x = nearest (decide (raw < 0)) raw.natAbs p ∧ shortest x = toStr (10^p) raw) := by
+  have hn := nearest_of_denotes h p raw
+  unfold checkedAsFloat64 asFloat64
+  simp only [hn, h.format_shortest]
+  constructor
+  · intro hh
+    split at hh
+    · cases hh
+    · rename_i hne
+      cases hh
+      exact ⟨rfl, by_contra fun hc => hne hc⟩
+  · rintro ⟨rfl, hs⟩
+    rw [if_neg (fun hc => hc hs)]
+
+/-- **f128, float target, soundness** (no assumption about the big.Float quotient): if CheckedAs succeeds, the value
+    returned is the float nearest to raw/10^p and its shortest round-trip text is the number's own text; only the
+    strconv contract and the round trip `ParseFloat(FormatFloat(x)) = x` are used -/
+theorem checkedAs_float_sound128 {F : Type} {parseFloat : Str → F} {formatFloat : F → Str}
+    {nearest : Bool → Nat → Nat → F} {shortest : F → Str} (quo : Int → Int → F)
+    (h : StrconvContract parseFloat formatFloat nearest shortest)
+    (hrt : ∀ x, parseFloat (formatFloat x) = x) (p : Nat) (raw : Int) (x : F)
+    (hx : checkedAsFloat128 quo formatFloat (10^p) raw = some x) :
+    x = nearest (decide (raw < 0)) raw.natAbs p ∧ shortest x = toStr (10^p) raw := by
+  unfold checkedAsFloat128 asFloat128 at hx
+  rw [toStr128_eq] at hx
+  simp only at hx
+  split at hx
+  · cases hx
+  · rename_i hne
+    cases hx
+    have heq : formatFloat (quo raw (10^p)) = toStr (10^p) raw := by_contra fun hc => hne hc
+    refine ⟨?_, by rw [← h.format_shortest]; exact heq⟩
+    rw [← nearest_of_denotes h p raw, ← heq, hrt]
+
+/-- **f128, float target, completeness** under the additional named hypothesis that the 128-bit quotient converted to
+    the target type is the nearest float (`quo_nearest`): CheckedAs succeeds exactly as the property words it -/
+theorem checkedAs_float_iff128 {F : Type} {parseFloat : Str → F} {formatFloat : F → Str}
+    {nearest : Bool → Nat → Nat → F} {shortest : F → Str} (quo : Int → Int → F)
+    (h : StrconvContract parseFloat formatFloat nearest shortest)
+    (quo_nearest : ∀ p raw, quo raw (10^p) = nearest (decide (raw < 0)) raw.natAbs p) (p : Nat) (raw : Int) (x : F) :
+    checkedAsFloat128 quo formatFloat (10^p) raw = some x ↔
+      (x = nearest (decide (raw < 0)) raw.natAbs p ∧ shortest x = toStr (10^p) raw) := by
+  unfold checkedAsFloat128 asFloat128
+  rw [toStr128_eq]
+  simp only [quo_nearest, h.format_shortest]
+  constructor
+  · intro hh
+    split at hh
+    · cases hh
+    · rename_i hne
+      cases hh
+      exact ⟨rfl, by_contra fun hc => hne hc⟩
+  · rintro ⟨rfl, hs⟩
+    rw [if_neg (fun hc => hc hs)]
+
+/-- As returns the same value whenever CheckedAs succeeds (float targets) -/
+theorem as_eq_checkedAs_float {F : Type} (parseFloat : Str → F) (formatFloat : F → Str) (quo : Int → Int → F)
+    (mult raw : Int) (x : F) :
+    (checkedAsFloat64 parseFloat formatFloat mult raw = some x → asFloat64 parseFloat mult raw = x) ∧
+    (checkedAsFloat128 quo formatFloat mult raw = some x → asFloat128 quo mult raw = x) := by
+  unfold checkedAsFloat64 checkedAsFloat128
+  constructor <;> intro hh <;> simp only at hh <;> split at hh <;> first | (cases hh; done) | (cases hh; rfl) | exact Option.some.inj hh
+
+/-- non-vacuity of the contract: it is satisfiable (a one-point float type) -/
+example : StrconvContract (F := Unit) (fun _ => ()) (fun _ => []) (fun _ _ _ => ()) (fun _ => []) :=
+  ⟨fun _ _ _ _ _ => rfl, fun _ => rfl, fun _ _ _ _ => rfl⟩
 
 /-! ## non-vacuity -/
 example : fits64 (-(2^63)) = true ∧ fits128 (-(2^127)) = true := by decide
